@@ -242,8 +242,10 @@ func c03prefilter(c *Ctx, fn *ssa.Function) {
 	success := func(reach *an.Reach) []string {
 		var out []string
 		for _, ret := range reach.Returns() {
-			if k := statusKind(ret.Results[1]); k != "other" {
-				out = append(out, k+"@"+c.InstrPos(ret))
+			for _, v := range reach.Values(ret.Results[1]) {
+				if k := statusKind(v); k != "other" {
+					out = append(out, k+"@"+c.InstrPos(ret))
+				}
 			}
 		}
 		return out
@@ -296,11 +298,13 @@ func c03prefilter(c *Ctx, fn *ssa.Function) {
 	plain := false
 	rec := false
 	for _, ret := range reach.Returns() {
-		switch statusKind(ret.Results[1]) {
-		case "success":
-			plain = true
-		case "recursive":
-			rec = true
+		for _, v := range reach.Values(ret.Results[1]) {
+			switch statusKind(v) {
+			case "success":
+				plain = true
+			case "recursive":
+				rec = true
+			}
 		}
 	}
 	r.Check(len(facts) > 0 && !plain && rec, "PATH", key+"/parent-check", c.Pos(fn.Pos()), "with parent checking on the result is that of the ancestor walk",
@@ -349,8 +353,10 @@ func c03recursive(c *Ctx, fn *ssa.Function) {
 	reach := an.Explore(fn, an.After(le), an.Facts{extract(le.Value(), 0): an.False}, nil)
 	var bad []string
 	for _, ret := range reach.Returns() {
-		if k := statusKind(ret.Results[0]); k != "other" {
-			bad = append(bad, k+"@"+c.InstrPos(ret))
+		for _, v := range reach.Values(ret.Results[0]) {
+			if k := statusKind(v); k != "other" {
+				bad = append(bad, k+"@"+c.InstrPos(ret))
+			}
 		}
 	}
 	r.Check(len(bad) == 0, "PATH", key+"/false=>reject", c.InstrPos(le), "an exceeded ancestor always rejects", "although an ancestor's limit is exceeded the walk continues or succeeds: "+strings.Join(bad, ","))
